@@ -10,7 +10,8 @@ import (
 )
 
 // VerifC06_Read: copies of one key with arbitrary (solver-chosen, possibly equal) timestamps are spread over the
-// primary owner, a previous owner (a member of its own, or the first backup owner, which then holds two copies) and
+// primary owner, one or two previous owners (a member of its own, the first backup owner - which then holds two
+// copies -, or two members of their own) and
 // the backup owners; any of the remote holders may be unreachable; ReadQuorum is
 // symbolic. A read through the owner (or forwarded from a bystander) returns a value only if at least ReadQuorum
 // copies were obtained, fails with the read-quorum error when some but too few copies were obtained, returns the
@@ -22,7 +23,8 @@ func VerifC06_Read() {
 	repair := vpBool("readrepair")
 	// previous primary owner: none, a member of its own, or member 1 - which is also the first backup owner and so
 	// holds two copies of the key (a primary-fragment one and a backup-fragment one)
-	prevKind := vpChoose("prevowner", 3)
+	// (3: two previous owners, members r and r+1, the older one listed first)
+	prevKind := vpChoose("prevowner", 4)
 	withPrev := prevKind != 0
 	prevMember := r
 	if prevKind == 2 {
@@ -33,6 +35,9 @@ func VerifC06_Read() {
 	primaryOwners := []int{0}
 	if withPrev {
 		primaryOwners = []int{prevMember, 0}
+	}
+	if prevKind == 3 {
+		primaryOwners = []int{r + 1, r, 0}
 	}
 	cl.vpSetOwners(0, primaryOwners, vpIntList(1, r))
 
@@ -51,7 +56,12 @@ func VerifC06_Read() {
 	if withPrev {
 		hs = append(hs, &holder{m: prevMember, kind: partitions.PRIMARY})
 	}
-	for m := 1; m <= r; m++ {
+	lastHolder := r
+	if prevKind == 3 {
+		hs = append(hs, &holder{m: r + 1, kind: partitions.PRIMARY})
+		lastHolder = r + 1
+	}
+	for m := 1; m <= lastHolder; m++ {
 		cl.members[m].down = vpBool("down")
 	}
 	for i, h := range hs {
@@ -65,6 +75,7 @@ func VerifC06_Read() {
 	entry := 0
 	if vpBool("viabystander") {
 		entry = r + 1
+		vpAssume(!cl.members[entry].down) // the member the client talks to is up
 	}
 	e, err := vpDMap(cl.members[entry], "d").Get(context.Background(), "k")
 
@@ -150,6 +161,68 @@ func VerifC06_Merge() {
 		vpAssert(gerr == nil, "merged-key-present")
 		if gerr == nil {
 			vpAssert(cur.Timestamp() == maxTs, "merge-keeps-newest-timestamp")
+		}
+	}
+	vpReach("end")
+}
+
+// VerifC09_StaleCopies: copies of one key on the primary owner, the backup owner and optionally a previous owner
+// carry solver-chosen distinct timestamps, and each either no expiry or a deadline that has already passed. A read
+// (read-repair on or off, through the owner or the other member) is decided by the newest copy alone: if that copy
+// has expired the key reads not-found - an older copy without expiry must not come back, now or on the next read -
+// and otherwise the newest copy's value is returned.
+func VerifC09_StaleCopies() {
+	repair := vpBool("readrepair")
+	withPrev := vpBool("prevowner")
+	cl := vpNewCluster(vpClusterConfig{members: 3, replicaCount: 2, writeQuorum: 1, readQuorum: 1, partitions: 1, readRepair: repair})
+	po := []int{0}
+	if withPrev {
+		po = []int{2, 0}
+	}
+	cl.vpSetOwners(0, po, []int{1})
+	type copyT struct {
+		m       int
+		kind    partitions.Kind
+		present bool
+		expired bool
+		ts      int64
+	}
+	cs := []*copyT{{m: 0, kind: partitions.PRIMARY}, {m: 1, kind: partitions.BACKUP}}
+	if withPrev {
+		cs = append(cs, &copyT{m: 2, kind: partitions.PRIMARY})
+	}
+	now := vpNowMs()
+	var newest *copyT
+	for i, c := range cs {
+		c.present = vpBool("present")
+		if !c.present {
+			continue
+		}
+		c.ts = int64(vpRange("ts", 1, 1000))
+		for _, o := range cs[:i] {
+			vpAssume(!o.present || o.ts != c.ts)
+		}
+		c.expired = vpBool("expired")
+		ttl := int64(0)
+		if c.expired {
+			ttl = now - 1000
+		}
+		vpPlace(cl.members[c.m], "d", "k", []byte{byte('A' + i)}, ttl, c.ts, c.kind)
+		if newest == nil || c.ts > newest.ts {
+			newest = c
+		}
+	}
+	vpAssume(newest != nil)
+	entry := vpChoose("entry", 2)
+	for round := 0; round < 2; round++ {
+		e, err := vpDMap(cl.members[entry], "d").Get(context.Background(), "k")
+		if newest.expired {
+			vpAssert(errors.Is(err, ErrKeyNotFound), "expired-newest-copy-hides-older-copies")
+		} else {
+			vpAssert(err == nil, "unexpired-newest-copy-is-returned")
+			if err == nil {
+				vpAssert(e.Timestamp() == newest.ts, "read-returns-the-newest-copy")
+			}
 		}
 	}
 	vpReach("end")
